@@ -481,6 +481,86 @@ def o11(h, st):
     h.done()
 
 
+# O12 histories on ONE Histogram object ------------------------------------------------------------------------------------
+
+HIST_OPS = ["read", "post_select", "remove", "iadd", "expectation"]
+
+
+def o12_structures(tier):
+    sts = []
+    L = 3
+    for seq in itertools.product(HIST_OPS, repeat=L):
+        if not any(o in ("post_select", "remove", "iadd") for o in seq):
+            continue
+        sts.append({"n": 3, "ops": list(seq)})
+    return sts if tier != "quick" else sts[::2]
+
+
+@contract("C18", "O12.Histogram.histories", level="S", structures=o12_structures, native_samples=lambda st, rnd, tier: count_samples(st, rnd, tier, prefixes=("v", "w")),
+          targets=[(H, "Histogram.n_shots"), (H, "Histogram.frequencies"), (H, "Histogram.post_select"), (H, "Histogram.remove_qubit_indices"), (H, "Histogram.__iadd__"),
+                   (H, "Histogram.get_expectation_value")])
+def o12(h, st):
+    """after EVERY step of a history of operations on one Histogram object (reading n_shots / frequencies / an expectation value, post-selecting in place, removing a qubit,
+    += another histogram), for every value of the counts: n_shots == sum of the current counts, frequencies[k] * n_shots == counts[k] (so they sum to one), the counts are
+    those of the specified operation applied to the previous counts, and the expectation value read is the parity-weighted mean of the CURRENT counts - nothing observable
+    depends on values read or cached earlier in the history"""
+    n = st["n"]
+    d = sym_counts(h, n)
+    wsym = sym_counts(h, n, prefix="w")       # counts of the histograms added along the history (declared up front so that every counter-model is complete)
+    hist = h.call(H, "Histogram", dict(d))
+    cur = dict(d)              # specification state: the counts the object must hold
+    width = n
+    step = 0
+    for op in st["ops"]:
+        step += 1
+        tag = f"step {step} ({op}): "
+        if op == "read":
+            pass
+        elif op == "post_select":
+            if width < 2:
+                continue
+            h.call(H, "Histogram.post_select", hist, {0: "1"})
+            cur = {k[1:]: v for k, v in cur.items() if k[0] == "1"}
+            width -= 1
+        elif op == "remove":
+            if width < 2:
+                continue
+            h.call(H, "Histogram.remove_qubit_indices", hist, width - 1)
+            new = {}
+            for k, v in cur.items():
+                new[k[:-1]] = new.get(k[:-1], 0) + v
+            cur = new
+            width -= 1
+        elif op == "iadd":
+            other = {k: wsym[k.rjust(n, "0")] for k in cur}
+            o2 = h.call(H, "Histogram", dict(other))
+            hist = h.I.augop(__import__("ast").Add, hist, o2) if h.symbolic else hist.__iadd__(o2)
+            cur = {k: cur[k] + other[k] for k in cur}
+        elif op == "expectation":
+            term = ((0, "Z"),) if width >= 1 else ()
+            val = h.call(H, "Histogram.get_expectation_value", hist, term)
+            tot = total(cur)
+            want = sum((v if k[0] == "0" else -1 * v) for k, v in cur.items())
+            if not h.symbolic:
+                # (value compared in the bounded native runs only: a sum of quotients times the total is nonlinear for the SMT back ends; the symbolic run still
+                #  executes the call, so that whatever it caches takes part in the rest of the history)
+                h.check_close(tag + "expectation value of Z0 times the total == signed sum of the current counts", val * tot, want)
+        # observable state after the step
+        counts = hist.counts
+        h.check(tag + "keys of the counts", sorted(counts) == sorted(cur), detail=f"{sorted(counts)} vs {sorted(cur)}")
+        if sorted(counts) == sorted(cur):
+            for k in cur:
+                h.check_close(tag + f"count of {k}", counts[k], cur[k])
+        ns = h.getattr(hist, "n_shots")
+        h.check_close(tag + "n_shots == sum of the current counts", ns, total(cur))
+        fr = h.getattr(hist, "frequencies")
+        for k in cur:
+            if k in fr:
+                h.check_close(tag + f"frequency of {k} times the total == its count", fr[k] * total(cur), cur[k])
+        h.check(tag + "frequencies defined on the current keys", sorted(fr) == sorted(cur))
+    h.done()
+
+
 PROPERTY = {
     "level": "proof",
     "explanation": "Conservation laws of Histogram / post-selection / splitting / one-term expectation values are proved for every value of the "
